@@ -95,7 +95,7 @@ def combine(*fs):
 FULL = runner.ALL_KEYS
 
 CONFIG = {
-    "C01": dict(profile=dict(p_required=0.03, p_bad_value=0.03, p_ev_unknown=0.02, p_ev_garbage=0.01, p_group=0.45, p_namespace=0.7,
+    "C01": dict(profile=dict(p_repeat_opt=0.5, p_required=0.03, p_bad_value=0.03, p_ev_unknown=0.02, p_ev_garbage=0.01, p_group=0.45, p_namespace=0.7,
                              p_commands=0.5, n_events=(1, 9), p_untagged=0.2, p_init=0.3, p_mutate_argv=0.03),
                 keys=["panic", "err", "vals", "calls", "attached"], transform=t_err_type_only, theorems="C01_*"),
     "C02": dict(profile=dict(p_required=0.02, p_mb_short=0.25, p_quoted=0.3, p_bad_value=0.05, p_commands=0.2, p_ev_unknown=0.02, p_ev_garbage=0.01),
@@ -114,10 +114,10 @@ CONFIG = {
                              p_default=0.1, n_events=(0, 7), p_mutate_argv=0.02),
                 keys=["panic", "err", "exec"], transform=common.hide_help, oracle=oracle_c09, theorems="C06_*"),
     "C07": dict(profile=dict(p_ev_unknown=0.3, p_wrong_scope=0.3, p_ignore=0.35, p_handler=0.45, p_required=0.02, p_commands=0.6, p_bad_value=0.02,
-                             p_namespace=0.8, p_group=0.4),
+                             p_namespace=0.8, p_group=0.4, p_ev_cmd=0.2, max_depth=3, p_subopt=0.4, p_sibling_cmd=0.35),
                 keys=["panic", "err", "unknown", "ret", "vals"], transform=common.hide_help, theorems="C07_*"),
     "C08": dict(profile=dict(p_commands=0.95, max_depth=3, p_alias=0.6, p_subopt=0.4, p_ev_cmd=0.35, p_required=0.02, p_bad_value=0.02,
-                             p_ev_unknown=0.03, n_events=(1, 9), p_positional=0.15),
+                             p_ev_unknown=0.03, n_events=(1, 9), p_positional=0.15, p_sibling_cmd=0.25),
                 keys=["panic", "err", "active", "vals", "ret"], transform=common.hide_help, theorems="C08_*", n_quick=250),
     "C09": dict(profile=dict(p_commands=0.95, p_exec=0.9, p_cmdhandler=0.5, p_exec_err=0.3, p_ev_cmd=0.3, p_required=0.15, p_bad_value=0.1,
                              p_ev_unknown=0.08, p_help=0.7, n_events=(1, 8)),
